@@ -5,6 +5,7 @@ use serde_json::Value;
 use std::path::PathBuf;
 
 pub mod c01;
+pub mod c02;
 pub mod c08;
 pub mod c13;
 pub mod c16;
@@ -62,6 +63,7 @@ pub fn dispatch(
     }
 
     route!("C01", c01);
+    route!("C02", c02);
     route!("C08", c08);
     route!("C13", c13);
     route!("C16", c16);
